@@ -35,7 +35,17 @@ Section PromiseProofs.
     | _ => True
     end.
 
+  Definition op_pc_ok (o : pop) (p : ppc) : Prop :=
+    match p with
+    | VChk | VFlag | VVal | VNotify | VRel => match o with PDeliver _ => True | _ => False end
+    | MPred | MWait | MReacq | MGet | MTmo | MRel => match o with PDeref _ => True | _ => False end
+    | GRead | GRel => match o with PReal => True | _ => False end
+    | VAcq | MAcq | GAcq => False      (* never stored: only reached through [pentry] *)
+    | QIdle => True
+    end.
+
   Record PIv (s : pstate) : Prop := {
+    pi_op : forall t, match p_ops (pthr s t) with o :: _ => op_pc_ok o (p_pc (pthr s t)) | [] => True end;
     pi_lock : forall t, in_pcs (p_pc (pthr s t)) = true <-> plock s = Some t;
     pi_flag : forall t, p_pc (pthr s t) = VFlag -> delivered s = false;
     pi_del : forall t, p_pc (pthr s t) = VVal \/ p_pc (pthr s t) = VNotify \/ p_pc (pthr s t) = MGet ->
@@ -61,6 +71,7 @@ Section PromiseProofs.
   Lemma PIv_init progs : PIv (pinit vnone progs).
   Proof.
     constructor; simpl; intros; try discriminate; try contradiction; auto.
+    - destruct (progs t); simpl; auto.
     - split; intro H; discriminate.
     - destruct H as [H|[H|H]]; discriminate.
   Qed.
@@ -138,9 +149,23 @@ Section PromiseProofs.
                         exfalso;
                         assert (Hd : delivered s = false) by first [assumption | apply (pi_flag s I t); assumption];
                         pose proof (pi_st0 s I Hd) as Z; unfold pst in Z; congruence
-                      | match goal with X : delivered _ = true |- _ => rewrite X end; reflexivity ] ]
+                      | match goal with X : delivered _ = true |- _ => rewrite X end; reflexivity
+                      | destruct (delivered s) eqn:Hd; [reflexivity|];
+                        exfalso; pose proof (pi_st0 s I Hd) as Z; unfold pst in Z; congruence ] ]
       | ].
+    all: pose proof (pi_op s I t) as Lop;
+      match goal with E : p_ops _ = _ :: _ |- _ => rewrite E in Lop end;
+      match goal with Hp : p_pc _ = _ |- _ => rewrite Hp in Lop end; simpl in Lop.
+    all: try (exfalso; exact Lop).
     all: constructor; simpl.
+    (* operation <-> program point *)
+    all: try (intro u; destruct (Nat.eq_dec u t) as [->|Hu];
+              [ rewrite ?pupd_same, ?Nat.eqb_refl; simpl;
+                first [ exact Lop | exact Logic.I
+                      | destruct l; simpl; exact Logic.I
+                      | match goal with E : p_ops _ = _ :: _ |- _ => rewrite ?E end; simpl;
+                        first [exact Lop | exact Logic.I | destruct l; simpl; exact Logic.I] ]
+              | destruct (Oth u Hu) as (Op & Oo & _); simpl in Op, Oo; rewrite Op, Oo; exact (pi_op s I u) ]; fail).
     (* lock <-> program point *)
     all: try (intro u; destruct (Nat.eq_dec u t) as [->|Hu];
               [ rewrite ?pupd_same, ?Nat.eqb_refl; simpl; intuition (try congruence)
@@ -181,6 +206,249 @@ Section PromiseProofs.
               [ rewrite ?pupd_same, ?Nat.eqb_refl; simpl; intro X; discriminate X
               | destruct (Oth u Hu) as (Op & Oo & _ & Og); simpl in Op, Oo, Og; rewrite Op, Oo, Og; intros X Y;
                 apply (res_ok_mono s); [exact Mono|]; exact (pi_got s I u o rest X Y) ]; fail).
-    all: idtac.
-  Abort.
+    all: try (intros; reflexivity).
+    all: try (intro X; discriminate X).
+    all: try (intro u; destruct (Nat.eq_dec u t) as [->|Hu];
+              [ rewrite ?pupd_same, ?Nat.eqb_refl; simpl; intro X; first [discriminate X | destruct X as [X|[X|X]]; discriminate X]
+              | destruct (Oth u Hu) as (Op & _); simpl in Op; rewrite Op; intro X;
+                first [ pose proof (pi_flag s I u X); congruence | pose proof (pi_del s I u X); congruence ] ]; fail).
+    (* leftovers of pi_op *)
+    all: try solve [ intro u; destruct (Nat.eq_dec u t) as [->|Hu];
+                     [ rewrite ?pupd_same; simpl; rewrite ?E; simpl; auto
+                     | destruct (Oth u Hu) as (Op & Oo & _); simpl in Op, Oo; rewrite Op, Oo; exact (pi_op s I u) ] ].
+    (* facts available when the stepping thread holds the lock *)
+    all: try (assert (HL : plock s = Some t) by (apply Lk; reflexivity)).
+    (* pi_st0 variants *)
+    all: try solve [ intros _; apply (pi_st0 s I); first [assumption | apply (pi_flag s I t); assumption] ].
+    all: try solve [ intro Hd; rewrite plog_snoc;
+                     assert (Z : pst s = Some None) by (apply (pi_st0 s I); first [assumption | exact Hd]);
+                     unfold pst in Z; rewrite Z; simpl; rewrite ?Hd; reflexivity ].
+    all: try solve [ intro Hd; exfalso; assert (delivered s = true) by (apply (pi_del s I t); auto); congruence ].
+    (* pi_st1 when nobody is at VVal after the step *)
+    all: try solve [
+      intro Hd';
+      assert (Hd : delivered s = true) by first [assumption | exact Hd' | apply (pi_del s I t); auto];
+      destruct (pi_st1 s I Hd) as (w & W1 & W2 & W3); exists w;
+      assert (NV : forall u, p_pc (pthr s u) <> VVal)
+        by (apply NoVVal; [exact HL | match goal with Hp : p_pc _ = _ |- _ => rewrite Hp end; discriminate]);
+      split;
+      [ first [ exact W1
+              | unfold pst in W1; rewrite plog_snoc, W1; simpl; rewrite ?(W2 NV), ?veq_refl, ?Hd; reflexivity ]
+      | split;
+        [ intros _; exact (W2 NV)
+        | intro u; destruct (Nat.eq_dec u t) as [->|Hu];
+          [ rewrite ?pupd_same; simpl; intro X; discriminate X
+          | destruct (Oth u Hu) as (Op & _); simpl in Op; rewrite Op; intro X; exfalso; exact (NV u X) ] ] ] ].
+    (* pi_op after an entry step *)
+    all: try solve [ intro u; destruct (Nat.eq_dec u t) as [->|Hu];
+                     [ rewrite ?pupd_same; simpl; rewrite ?E; simpl;
+                       repeat match goal with o : Promise.pop V |- _ => destruct o; simpl in *; try discriminate end;
+                       auto
+                     | destruct (Oth u Hu) as (Op & Oo & _); simpl in Op, Oo; rewrite Op, Oo; exact (pi_op s I u) ] ].
+    (* VFlag -> VVal: the first deliver *)
+    all: try solve [ intro u; destruct (Nat.eq_dec u t) as [->|Hu];
+                     [ rewrite ?pupd_same; simpl; intro X; discriminate X
+                     | destruct (Oth u Hu) as (Op & _); simpl in Op; rewrite Op; intro X;
+                       pose proof (NotIn u Hu HL) as Y; rewrite X in Y; discriminate Y ] ].
+    all: try solve [
+      intros _; exists v;
+      assert (Z : pst s = Some None) by (apply (pi_st0 s I); apply (pi_flag s I t); assumption);
+      split; [ unfold pst in Z; rewrite plog_snoc, Z; reflexivity | split ];
+      [ intro Hn; exfalso; apply (Hn t); rewrite pupd_same; reflexivity
+      | intro u; destruct (Nat.eq_dec u t) as [->|Hu];
+        [ rewrite ?pupd_same; simpl; intros _; exists l; exact E
+        | destruct (Oth u Hu) as (Op & _); simpl in Op; rewrite Op; intro X;
+          pose proof (NotIn u Hu HL) as Y; rewrite X in Y; discriminate Y ] ] ].
+    (* VVal -> VNotify: the value is stored *)
+    all: try solve [ intro u; destruct (Nat.eq_dec u t) as [->|Hu];
+                     [ intros _; apply (pi_del s I t); auto
+                     | destruct (Oth u Hu) as (Op & _); simpl in Op; rewrite Op; exact (pi_del s I u) ] ].
+    all: try solve [
+      intro Hd; destruct (pi_st1 s I Hd) as (w & W1 & W2 & W3); exists w;
+      destruct (W3 t Hpc) as (rest & Hr); rewrite E in Hr; inversion Hr; subst;
+      split; [exact W1|split]; [ intros _; reflexivity
+      | intro u; destruct (Nat.eq_dec u t) as [->|Hu];
+        [ rewrite ?pupd_same; simpl; intro X; discriminate X
+        | destruct (Oth u Hu) as (Op & _); simpl in Op; rewrite Op; intro X;
+          pose proof (NotIn u Hu HL) as Y; rewrite X in Y; discriminate Y ] ] ].
+    (* lock field when a woken waiter finds the lock busy *)
+    all: try solve [
+      intro u; pose proof (pi_lock s I u) as Lu;
+      match goal with X : plock _ = Some ?nn |- _ => rewrite X in Lu, Lk end;
+      destruct (Nat.eq_dec u t) as [->|Hu];
+      [ rewrite ?pupd_same; simpl; split; intro X; [discriminate X|];
+        exfalso; assert (false = true) by (apply Lk; exact X); discriminate
+      | destruct (Oth u Hu) as (Op & _); simpl in Op; rewrite Op; exact Lu ] ].
+    (* results: done lists after a finish *)
+    all: try solve [
+      intros u o v0; destruct (Nat.eq_dec u t) as [->|Hu];
+      [ rewrite ?pupd_same; simpl; intros [Heq|Hin];
+        [ inversion Heq; subst; clear Heq;
+          first [ destruct o; simpl in *; tauto
+                | apply (res_ok_mono s); [exact Mono|]; exact (pi_got s I t o l Hpc E) ]
+        | apply (res_ok_mono s); [exact Mono|]; exact (pi_done s I t o v0 Hin) ]
+      | destruct (Oth u Hu) as (_ & _ & Od & _); simpl in Od; rewrite Od; intro X;
+        apply (res_ok_mono s); [exact Mono|]; exact (pi_done s I u o v0 X) ] ].
+    (* results: the value register at MRel *)
+    all: try solve [
+      intros u o rest; destruct (Nat.eq_dec u t) as [->|Hu];
+      [ rewrite ?pupd_same; simpl; intros _ Heq; inversion Heq; subst; clear Heq;
+        first [ right; reflexivity
+              | destruct o; simpl in *; try tauto; left;
+                assert (Hd : delivered s = true) by (apply (pi_del s I t); auto);
+                destruct (pi_st1 s I Hd) as (w & W1 & W2 & _); exists w;
+                split; [apply Mono; exact W1|];
+                apply W2; apply NoVVal; [exact HL|rewrite Hpc; discriminate] ]
+      | destruct (Oth u Hu) as (Op & Oo & _ & Og); simpl in Op, Oo, Og; rewrite Op, Oo, Og; intros X Y;
+        apply (res_ok_mono s); [exact Mono|]; exact (pi_got s I u o rest X Y) ] ].
+  Qed.
+
+  Theorem preach_PIv progs s : preach (pinit vnone progs) s -> PIv s.
+  Proof. intro R. induction R; eauto using PIv_init, PIv_step. Qed.
+
+  (** ---- the statements ---- *)
+
+  (** first deliver wins, later delivers are ignored, values read are the delivered one, a
+      timeout only while undelivered, realized? monotone: the history is a run of the
+      reference promise *)
+  Theorem promise_history_ok progs s :
+    preach (pinit vnone progs) s -> promise_log_ok veq (rev (phist s)) = true.
+  Proof.
+    intro R. pose proof (preach_PIv progs s R) as I. unfold promise_log_ok.
+    destruct (delivered s) eqn:Hd.
+    - destruct (pi_st1 s I Hd) as (w & W1 & _). unfold pst in W1. rewrite W1. reflexivity.
+    - pose proof (pi_st0 s I Hd) as Z. unfold pst in Z. rewrite Z. reflexivity.
+  Qed.
+
+  (** what a deref returned: the delivered value, or (timed deref only) its timeout value *)
+  Theorem promise_deref_result progs s t tm v :
+    preach (pinit vnone progs) s -> In (PDeref tm, PRet v) (p_done (pthr s t)) ->
+    (exists w, plog_run veq (rev (phist s)) = Some (Some w) /\ v = w) \/ tm = Some v.
+  Proof. intros R H. exact (pi_done s (preach_PIv progs s R) t (PDeref tm) v H). Qed.
+
+  (** two derefs that did not time out returned the same value *)
+  Corollary promise_derefs_agree progs s t1 v1 t2 v2 :
+    preach (pinit vnone progs) s ->
+    In (PDeref None, PRet v1) (p_done (pthr s t1)) -> In (PDeref None, PRet v2) (p_done (pthr s t2)) ->
+    v1 = v2.
+  Proof.
+    intros R H1 H2.
+    destruct (promise_deref_result progs s t1 None v1 R H1) as [(w1 & A1 & B1)|X]; [|discriminate].
+    destruct (promise_deref_result progs s t2 None v2 R H2) as [(w2 & A2 & B2)|X]; [|discriminate].
+    congruence.
+  Qed.
+
+  (** once delivered (flag and value stored, lock free), a deref started by any thread
+      returns the delivered value in four steps of its own, without waiting *)
+  Theorem promise_deref_after_deliver s t tm rest :
+    delivered s = true -> plock s = None ->
+    p_ops (pthr s t) = PDeref tm :: rest -> p_pc (pthr s t) = QIdle ->
+    exists s1 s2 s3 s4,
+      pstep t ARun s = Some s1 /\ pstep t ARun s1 = Some s2 /\ pstep t ARun s2 = Some s3
+      /\ pstep t ARun s3 = Some s4
+      /\ p_done (pthr s4 t) = (PDeref tm, PRet (pvalue s)) :: p_done (pthr s t)
+      /\ p_ops (pthr s4 t) = rest /\ plock s4 = None.
+  Proof.
+    intros Hd Hl Hops Hpc.
+    eexists. eexists. eexists. eexists.
+    split; [unfold Promise.pstep; rewrite Hops; unfold pcur; rewrite Hpc, Hops; simpl; rewrite Hl; reflexivity|].
+    split; [unfold Promise.pstep, pset, pset_ev; simpl; rewrite ?pupd_same; simpl; rewrite ?Hops; simpl;
+            rewrite ?Hd; reflexivity|].
+    split; [unfold Promise.pstep, pset, pset_ev; simpl; rewrite ?pupd_same; simpl; rewrite ?Hops; simpl;
+            reflexivity|].
+    split; [unfold Promise.pstep, pset, pset_ev; simpl; rewrite ?pupd_same; simpl; rewrite ?Hops; simpl;
+            reflexivity|].
+    simpl. rewrite pupd_same. simpl. auto.
+  Qed.
 End PromiseProofs.
+
+(** ---- consequences of [promise_log_ok] on the history itself ---- *)
+Section LogFacts.
+  Context {V : Type}.
+  Variable veq : V -> V -> bool.
+
+  Definition reals (l : list (pev V)) : list bool :=
+    flat_map (fun e => match e with EReal b => [b] | _ => [] end) l.
+
+  Lemma mono_of_all_true (l : list bool) : forallb (fun b => b) l = true -> mono_bools l = true.
+  Proof. induction l as [|[] l IH]; simpl; intro H; auto. discriminate. Qed.
+
+  Lemma fold_none l : fold_left (pnext veq) l None = None.
+  Proof. induction l; simpl; auto. Qed.
+
+  Lemma delivered_stays l w st :
+    fold_left (pnext veq) l (Some (Some w)) = Some st -> st = Some w.
+  Proof.
+    revert st. induction l as [|e l IH]; simpl; intros st H; [congruence|].
+    destruct e; simpl in H; try (rewrite fold_none in H; discriminate); auto.
+    - destruct (veq v w); [auto|rewrite fold_none in H; discriminate].
+    - destruct b; [auto|rewrite fold_none in H; discriminate].
+  Qed.
+
+  Lemma delivered_no_timeout l w st :
+    fold_left (pnext veq) l (Some (Some w)) = Some st -> ~ In ETimeout l.
+  Proof.
+    revert st. induction l as [|e l IH]; simpl; intros st H Hin; [contradiction|].
+    destruct Hin as [Hin|Hin].
+    - subst e. simpl in H. rewrite fold_none in H. discriminate.
+    - destruct e; simpl in H; try (rewrite fold_none in H; discriminate); try (eapply IH; eauto; fail).
+      + destruct (veq v w); [eapply IH; eauto|rewrite fold_none in H; discriminate].
+      + destruct b; [eapply IH; eauto|rewrite fold_none in H; discriminate].
+  Qed.
+
+  Lemma delivered_reals_true l w st :
+    fold_left (pnext veq) l (Some (Some w)) = Some st -> forallb (fun b => b) (reals l) = true.
+  Proof.
+    revert st. induction l as [|e l IH]; simpl; intros st H; [reflexivity|].
+    destruct e; simpl in *; try (rewrite fold_none in H; discriminate); try (eapply IH; eauto; fail).
+    - destruct (veq v w); [eapply IH; eauto|rewrite fold_none in H; discriminate].
+    - destruct b; [simpl; eapply IH; eauto|rewrite fold_none in H; discriminate].
+  Qed.
+
+  (** a timed deref times out only before the (first) deliver *)
+  Theorem log_ok_timeout_only_if_undelivered l1 v l2 :
+    promise_log_ok veq (l1 ++ EDeliver v :: l2) = true -> ~ In ETimeout l2.
+  Proof.
+    unfold promise_log_ok, plog_run. rewrite fold_left_app. simpl.
+    destruct (fold_left (pnext veq) l1 (Some None)) as [[w|]|] eqn:E1; simpl.
+    - rewrite fold_none. discriminate.
+    - destruct (fold_left (pnext veq) l2 (Some (Some v))) eqn:E2; [|discriminate].
+      intros _. eapply delivered_no_timeout; eauto.
+    - rewrite fold_none. discriminate.
+  Qed.
+
+  (** at most one deliver takes effect *)
+  Theorem log_ok_first_wins l1 v l2 :
+    promise_log_ok veq (l1 ++ EDeliver v :: l2) = true ->
+    (forall u, ~ In (EDeliver u) l2) /\ (forall u, In (EValue u) l2 -> veq u v = true).
+  Proof.
+    unfold promise_log_ok, plog_run. rewrite fold_left_app. simpl.
+    destruct (fold_left (pnext veq) l1 (Some None)) as [[w|]|] eqn:E1; simpl;
+      try (rewrite fold_none; discriminate).
+    destruct (fold_left (pnext veq) l2 (Some (Some v))) eqn:E2; [|discriminate]. intros _.
+    clear E1. revert o E2. induction l2 as [|e l2 IH]; simpl; intros o E2.
+    - split; intros u H; contradiction.
+    - destruct e; simpl in E2; try (rewrite fold_none in E2; discriminate).
+      + destruct (IH _ E2) as [A B]. split; [intros u [H|H]; [discriminate|eapply A; eauto]|].
+        intros u [H|H]; [discriminate|auto].
+      + destruct (veq v0 v) eqn:Ev; [|rewrite fold_none in E2; discriminate].
+        destruct (IH _ E2) as [A B]. split; [intros u [H|H]; [discriminate|eapply A; eauto]|].
+        intros u [H|H]; [inversion H; subst; exact Ev|auto].
+      + destruct b; [|rewrite fold_none in E2; discriminate].
+        destruct (IH _ E2) as [A B]. split; [intros u [H|H]; [discriminate|eapply A; eauto]|].
+        intros u [H|H]; [discriminate|auto].
+  Qed.
+
+  (** realized? observations are monotone *)
+  Theorem log_ok_realized_monotone l :
+    promise_log_ok veq l = true -> mono_bools (reals l) = true.
+  Proof.
+    unfold promise_log_ok, plog_run.
+    assert (G : forall l st, fold_left (pnext veq) l (Some None) = Some st -> mono_bools (reals l) = true).
+    { clear l. induction l as [|e l IH]; simpl; intros st H; [reflexivity|].
+      destruct e; simpl in *; try (rewrite fold_none in H; discriminate); try (eapply IH; eauto; fail).
+      - eapply (mono_of_all_true (reals l)). eapply delivered_reals_true; eauto.
+      - destruct b; [rewrite fold_none in H; discriminate|]. eapply IH; eauto. }
+    destruct (fold_left (pnext veq) l (Some None)) eqn:E; [|discriminate]. intros _. eapply G; eauto.
+  Qed.
+End LogFacts.
